@@ -61,8 +61,8 @@ Definition c10_check (tab : list (frow float)) (r : c10_run) : nat :=
   let B := zi (r_B r) in let E := zi (r_E r) in let M := Z.to_nat (zi (r_M r)) in
   let fs := fert_read (PrimFloat.zero, EmptyString) B (PrimFloat.zero, EmptyString) (map mkline (r_fert r)) in
   let ts := till_read (PrimFloat.zero, 0%uint63) B (map mkline (r_till r)) in
-  (* g.BEGINN is 0 while the irrigation file is read *)
-  let is := irr_read (PrimFloat.zero, PrimFloat.zero) 0 (map mkline (r_irr r)) in
+  (* read with BEGINN = 0, compacted once BEGINN is known *)
+  let is := irr_read (PrimFloat.zero, PrimFloat.zero) B (map mkline (r_irr r)) in
   let b (ok : bool) (v : nat) := if ok then 0%nat else v in
   let fp := pay_of tab (r_fertilization r) fs in
   let c1 := all2 Z.eqb (tab_of M (rd_date fs)) (map zi (o_ztdg r)) in
